@@ -34,6 +34,10 @@ class SimFuture(asyncio.Future):
 
 
 class SimTask(asyncio.Task):
+    def __init__(self, coro, *, loop, name, seq, **kwargs):
+        self._sim_seq = seq  # needed by __hash__ before Task.__init__ registers the task
+        super().__init__(coro, loop=loop, name=name, **kwargs)
+
     def __hash__(self):
         return self._sim_seq
 
@@ -80,7 +84,7 @@ class External:
 
     __slots__ = (
         "label", "kind", "seq", "fut", "outcome", "hanging", "created_poll",
-        "fired_poll", "state", "due", "on_fire", "owner",
+        "fired_poll", "state", "due", "on_fire", "owner", "lazy", "pos", "fired_event",
     )
 
     def __init__(self, label, kind, seq, fut, outcome, hanging, created_poll, owner):
@@ -96,6 +100,9 @@ class External:
         self.due = None
         self.on_fire = None
         self.owner = owner  # request index, for per-request accounting
+        self.lazy = False  # completes only when nothing non-lazy is pending
+        self.pos = None
+        self.fired_event = None
 
     def is_pending(self):
         if self.state != "pending":
@@ -115,7 +122,7 @@ class SimLoop(base_events.BaseEventLoop):
         self._now = 0.0
         self._clock_resolution = 1e-9
         self._seq = 0
-        self.set_task_factory(self._task_factory)
+        self.set_task_factory(self._sim_task_factory)
         self.set_exception_handler(self._exc_handler)
         self.finalizer_hits = []
         self.exc_reports = []
@@ -146,13 +153,11 @@ class SimLoop(base_events.BaseEventLoop):
         fut._sim_seq = self.next_seq()
         return fut
 
-    def _task_factory(self, loop, coro, **kwargs):
+    def _sim_task_factory(self, loop, coro, **kwargs):
         seq = self.next_seq()
         name = kwargs.pop("name", None)
         # never asyncio's global Task-<n> counter
-        task = SimTask(coro, loop=loop, name=name or f"T{seq}", **kwargs)
-        task._sim_seq = seq
-        return task
+        return SimTask(coro, loop=loop, name=name or f"T{seq}", seq=seq, **kwargs)
 
     def _exc_handler(self, loop, context):
         msg = context.get("message", "")
@@ -241,6 +246,7 @@ class Sim:
     def _fire(self, ext):
         ext.state = "fired"
         ext.fired_poll = self.poll
+        ext.fired_event = len(self.events)
         self.fire_count += 1
         self.log("fire", ext.seq, ext.label, self.poll)
         kind, payload = ext.outcome
@@ -263,7 +269,9 @@ class Sim:
             deliver()
 
     def pending(self):
-        return [e for e in self.externals if e.is_pending() and not e.hanging]
+        pend = [e for e in self.externals if e.is_pending() and not e.hanging]
+        eager = [e for e in pend if not e.lazy]
+        return eager or pend
 
     def pending_hanging(self):
         return [e for e in self.externals if e.is_pending() and e.hanging]
